@@ -196,7 +196,9 @@ impl Prop for C10 {
                     if g.chance(2, 3) {
                         ops.push(LOp::Execute { id, vals: vec![g.raw()] });
                     } else {
-                        ops.push(LOp::LongData { id, param: 0, data: b"zz".to_vec() });
+                        // incl. an empty chunk: the id must be checked whatever the payload
+                        let n = *g.pick(&[0usize, 0, 1, 2, 9]);
+                        ops.push(LOp::LongData { id, param: g.below(2) as u16, data: g.bytes(n) });
                     }
                     continue;
                 }
